@@ -104,7 +104,7 @@ PROPS["C14"] = {
     "assumptions": ["what a coroutine handler sees when it eventually runs is not part of the contract; Read handlers are modelled by their effect (refresh) only"],
 }
 PROPS["C15"] = {
-    "suites": [("comp_cli", "gen_c15")],
+    "suites": [("comp_cli", "gen_c15"), ("comp_xml", "gen_transport")],
     "rule": "random streams of def*/set*/delProperty/message/ping/getProperties/new*/enableBLOB over 3 device x 3 property x 4 element names and all five kinds (redefinition, partial "
             "updates, kind mismatches, unknown targets, empty and absent BLOB payloads, duplicate children, whole-device deletion; 5% ill-formed BLOB children as a separate stream); "
             "distinct by message list",
@@ -128,7 +128,7 @@ PROPS["C17"] = {
     "assumptions": ["asyncio's Event/task/timer semantics as recorded in DESIGN.md section 5 (L2g): modelled, tied by running the real coroutine on the virtual loop"],
 }
 PROPS["C19"] = {
-    "suites": [("comp_send", "gen_cases")],
+    "suites": [("comp_send", "gen_cases"), ("comp_send", "gen_constants")],
     "rule": "exhaustive: every schedule (sequence over {route next message, complete the oldest pending I/O of connection i}) up to length 6-8 with at most 4 routed messages, for one TCP "
             "server connection, the TTY channel, the client connection, and pairs; random: bursts of 1-5 messages to 1-3 connections of mixed transports with one connection possibly "
             "never completing; after each action the loop runs until idle; distinct by (connections, schedule); after every schedule all outstanding I/O is completed and everything routed must have left",
